@@ -351,7 +351,9 @@ func (x *Exec) rxFind(st *State, rx *compiledRx, s Str, from int) []rxResult {
 			if full == smt.False {
 				return
 			}
-			results = append(results, rxResult{Cond: full, Caps: append([]int(nil), caps...)})
+			mc := append([]int(nil), caps...)
+			mc[1] = pos
+			results = append(results, rxResult{Cond: full, Caps: mc})
 			notEarlier = c.And(notEarlier, c.Not(cond))
 			matched = append(matched, bx)
 			return
@@ -420,6 +422,7 @@ func (x *Exec) rxFind(st *State, rx *compiledRx, s Str, from int) []rxResult {
 		for i := range caps {
 			caps[i] = -1
 		}
+		caps[0] = start
 		dfs(uint32(prog.Start), start, caps, boundary[start], sb, map[[2]int]bool{})
 		if notEarlier == smt.False {
 			break
